@@ -969,28 +969,29 @@ def parse_tree_to_objgraph(
         if hasattr(model, "_tx_metamodel"):
             assert hasattr(model, "_tx_model_params")
 
-        # Load all imported models (e.g. using importURI)
-        # based on the maker `ModelLoader` found in the
-        # defined scope providers:
-        for scope_provider in metamodel.scope_providers.values():
-            from textx.scoping import ModelLoader
-
-            if isinstance(scope_provider, ModelLoader):
-                scope_provider.load_models(model, encoding=encoding)
-
-        # Load all imported models based on the maker
-        # `ModelLoader` directly attached to model references
-        # (e.g. in case of RREL expressions defined in the grammar):
-        for crossref in parser._crossrefs:
-            crossref = crossref[2]
-            if crossref.scope_provider is not None:
+        if not is_immutable_obj:
+            # Load all imported models (e.g. using importURI)
+            # based on the maker `ModelLoader` found in the
+            # defined scope providers (a plain Python value imports
+            # nothing):
+            for scope_provider in metamodel.scope_providers.values():
                 from textx.scoping import ModelLoader
 
-                scope_provider = crossref.scope_provider
                 if isinstance(scope_provider, ModelLoader):
                     scope_provider.load_models(model, encoding=encoding)
 
-        if not is_immutable_obj:
+            # Load all imported models based on the maker
+            # `ModelLoader` directly attached to model references
+            # (e.g. in case of RREL expressions defined in the grammar):
+            for crossref in parser._crossrefs:
+                crossref = crossref[2]
+                if crossref.scope_provider is not None:
+                    from textx.scoping import ModelLoader
+
+                    scope_provider = crossref.scope_provider
+                    if isinstance(scope_provider, ModelLoader):
+                        scope_provider.load_models(model, encoding=encoding)
+
             model._tx_reference_resolver = ReferenceResolver(
                 parser, model, pos_crossref_list
             )
